@@ -7,6 +7,7 @@ import (
 	"strings"
 
 	"crverif/internal/an"
+	"crverif/internal/load"
 
 	"golang.org/x/tools/go/ssa"
 )
@@ -20,12 +21,12 @@ func init() {
 			"R-C08-3 terminate is the server terminator's method, terminator.set stores isTerminal(sig), isTerminal is `s != SIGHUP` (unix) / true (windows), Signals() includes SIGHUP on unix; " +
 			"R-C08-4 every exit of schedule() waits for the scheduled-task group first, the error arm cancelling before waiting; " +
 			"R-C08-5 a transmission in flight when the scheduler stops is awaited before schedule() returns: either the group's Wait provably waits for running tasks (decided on the library's own SSA: every returning path passes through WaitGroup.Wait) or a reader/writer barrier exists (workers hold an RWMutex for reading around the transmission and re-check the context, every exit write-locks it); " +
-			"R-C08-6 a bare send of a request to the scheduler needs a buffered channel; task closures are followed through factories to the Delay call",
+			"R-C08-6 every send of a request to the scheduler is an arm of a blocking select with ctx.Done(); task closures are followed through factories to the Delay call",
 		Assumptions: []string{
 			"Go type checker and go/ssa construction are correct",
 			"sync.RWMutex and sync.WaitGroup behave as documented",
 		},
-		NotCovered: []string{"a request channel that is full at the instant of the stop (R-C08-6 only requires a buffer)", "promptness in real time"},
+		NotCovered: []string{"promptness in real time"},
 		Run:        runC08,
 	})
 }
@@ -425,6 +426,46 @@ func selectArmsOf(p *an.Path) []selArmInfo {
 	return out
 }
 
+// sendEv is a channel send performed on a path: a Send instruction, or the send
+// case of a select that was taken.
+type sendEv struct {
+	Chan, X ssa.Value
+	Pos     token.Pos
+	Sel     *ssa.Select // nil for a bare send
+}
+
+func sendsOn(p *an.Path) []sendEv {
+	var out []sendEv
+	p.Instrs(func(in ssa.Instruction) {
+		if s, ok := in.(*ssa.Send); ok {
+			out = append(out, sendEv{Chan: s.Chan, X: s.X, Pos: s.Pos()})
+		}
+	})
+	for _, a := range selectArmsOf(p) {
+		if st := a.sel.States[a.idx]; st.Dir == types.SendOnly {
+			out = append(out, sendEv{Chan: st.Chan, X: st.Send, Pos: st.Pos, Sel: a.sel})
+		}
+	}
+	return out
+}
+
+// stoppedBySelect reports whether the path took a ctx.Done() case of a select
+// that also offered a send (the sender gave up because the task is stopping).
+func stoppedBySelect(p *an.Path) bool {
+	for _, a := range selectArmsOf(p) {
+		st := a.sel.States[a.idx]
+		if st.Dir != types.RecvOnly || !strings.Contains(a.chanExpr, "Done(") {
+			continue
+		}
+		for _, o := range a.sel.States {
+			if o.Dir == types.SendOnly {
+				return true
+			}
+		}
+	}
+	return false
+}
+
 func c08Terminator(c *Ctx) {
 	// BuildTasks passes the server terminator's bound method.
 	for _, s := range an.FindCalls(c.srcFuncs(), func(cc *ssa.CallCommon) bool { return an.CallIs(cc, PkgCorerad, "", "NewAdvertiser") }) {
@@ -699,6 +740,28 @@ func inFlightAwaited(c *Ctx, rule string) {
 			if !sent {
 				continue
 			}
+			// a worker reports its failure while it holds the in-flight lock; the exits of schedule
+			// write-lock it without reading the error channel, so the report must be abandonable
+			wp.Instrs(func(in ssa.Instruction) {
+				switch x := in.(type) {
+				case *ssa.Send:
+					workersOK = false
+					workerFact = fmt.Sprintf("%s: bare send at %s while the in-flight lock is held (no receiver once schedule is stopping)", c.fname(cl), c.pos(x.Pos()))
+				case *ssa.Select:
+					hasSend, doneArm := false, false
+					for _, st := range x.States {
+						if st.Dir == types.SendOnly {
+							hasSend = true
+						} else if call, ok := st.Chan.(*ssa.Call); ok && call.Call.IsInvoke() && call.Call.Method.Name() == "Done" {
+							doneArm = true
+						}
+					}
+					if hasSend && !(doneArm || !x.Blocking) {
+						workersOK = false
+						workerFact = fmt.Sprintf("%s: select with a send at %s has no ctx.Done() arm", c.fname(cl), c.pos(x.Pos()))
+					}
+				}
+			})
 			if errCall != nil {
 				for _, a := range wp.Atoms {
 					x, y, op, ok := effCmp(a)
@@ -772,10 +835,9 @@ func inFlightAwaited(c *Ctx, rule string) {
 }
 
 // requestChannelSends (R-C08-6): a goroutine of the task that hands a request
-// to the scheduler with a bare send (no select on ctx.Done()) can only finish
-// when the scheduler is gone if the channel takes the value without a
-// receiver: the request channel must be buffered. (A full buffer at the
-// instant of the stop is the residual case listed under not covered.)
+// to the scheduler can only finish when the scheduler is gone if the send is
+// one arm of a blocking select whose other arm is ctx.Done(). (A buffer does
+// not help: it is full after 16 solicitations during one slow transmission.)
 func requestChannelSends(c *Ctx, rule string) {
 	adv := c.P.Method("internal/corerad", "Advertiser", "advertise")
 	if adv == nil {
@@ -801,31 +863,71 @@ func requestChannelSends(c *Ctx, rule string) {
 		}
 	}
 	collect(adv)
+	// ... and the module functions those hand the request channel to (multicast)
+	for i := 0; i < len(fns); i++ {
+		for _, b := range fns[i].Blocks {
+			for _, in := range b.Instrs {
+				call, ok := in.(ssa.CallInstruction)
+				if !ok {
+					continue
+				}
+				g := an.StaticCallee(call.Common())
+				if g == nil || g.Blocks == nil || seen[g] || !load.InModule(g) {
+					continue
+				}
+				for _, a := range call.Common().Args {
+					if _, isChan := a.Type().Underlying().(*types.Chan); isChan && strings.HasSuffix(typeStr(a.Type()), "netip.Addr") {
+						seen[g] = true
+						fns = append(fns, g)
+						break
+					}
+				}
+			}
+		}
+	}
 	n := 0
 	done := map[ssa.Instruction]bool{}
+	isReq := func(v ssa.Value) bool { return strings.HasSuffix(typeStr(v.Type()), "netip.Addr") }
 	for _, f := range fns {
 		for _, p := range c.pathsO(rule, f, an.PathOpts{EmitCut: true}) {
 			p.Instrs(func(in ssa.Instruction) {
-				snd, ok := in.(*ssa.Send)
-				if !ok || done[in] || !strings.HasSuffix(typeStr(snd.Chan.Type()), "netip.Addr") {
-					return
-				}
-				done[in] = true
-				n++
-				e := p.Of(snd.Chan)
-				buffered := false
-				for _, alt := range e.Alts() {
-					if alt.Op == an.OpMake && len(alt.Args) == 1 {
-						if k, isC := alt.Args[0].ConstInt(); isC && k > 0 {
-							buffered = true
+				switch x := in.(type) {
+				case *ssa.Send:
+					if done[in] || !isReq(x.Chan) {
+						return
+					}
+					done[in] = true
+					n++
+					c.R.Check(false, rule, c.fname(x.Parent())+":request-send-cancellable", c.fname(x.Parent()), c.pos(x.Pos()),
+						fmt.Sprintf("bare send on %s", p.Of(x.Chan)), "a request is handed to the scheduler under a select with ctx.Done()",
+						"when the scheduler has stopped reading and the buffer is full the sender blocks forever: the task neither returns nor is re-established")
+				case *ssa.Select:
+					send := false
+					for _, st := range x.States {
+						if st.Dir == types.SendOnly && isReq(st.Chan) {
+							send = true
 						}
 					}
+					if !send || done[in] {
+						return
+					}
+					done[in] = true
+					n++
+					doneArm := false
+					for _, st := range x.States {
+						if st.Dir != types.RecvOnly {
+							continue
+						}
+						if call, ok := st.Chan.(*ssa.Call); ok && call.Call.IsInvoke() && call.Call.Method.Name() == "Done" && strings.HasSuffix(typeStr(call.Call.Value.Type()), "context.Context") {
+							doneArm = true
+						}
+					}
+					c.R.Check(x.Blocking && doneArm, rule, c.fname(x.Parent())+":request-send-cancellable", c.fname(x.Parent()), c.pos(x.Pos()),
+						fmt.Sprintf("select with a request send: blocking=%v, ctx.Done() arm=%v", x.Blocking, doneArm), "a request is handed to the scheduler under a blocking select with ctx.Done()",
+						"when the scheduler has stopped reading and the buffer is full the sender blocks forever (or, with a default arm, the request is dropped)")
 				}
-				c.R.Check(buffered, rule, c.fname(snd.Parent())+":bare-send-on-buffered-request-channel", c.fname(snd.Parent()), c.pos(snd.Pos()),
-					fmt.Sprintf("bare send on %s", e), "a request is handed to the scheduler without blocking on a receiver (buffered channel), or under a select with ctx.Done()",
-					"a solicitation arriving while the advertiser stops blocks the listener forever: Run never returns")
 			})
 		}
 	}
-	c.R.Check(n >= 1, rule, c.fname(adv)+":request-sends", c.fname(adv), c.pos(adv.Pos()), fmt.Sprintf("%d bare send(s) of a request", n), ">= 1 (listener callback)", "anchor-missing")
+	c.R.Check(n >= 2, rule, c.fname(adv)+":request-sends", c.fname(adv), c.pos(adv.Pos()), fmt.Sprintf("%d send(s) of a request", n), ">= 2 (listener callback, multicast loop)", "anchor-missing")
 }
